@@ -12,6 +12,7 @@ set of outcomes the specification allows. Plus `net_if_addrs()` post-processing 
 """
 import ast
 import errno
+import json
 import os
 import socket
 
@@ -37,7 +38,7 @@ ASSUMPTIONS = [
     "os.path.exists/isfile/islink = ONE stat()/lstat() whose OSError is swallowed and answered False (genericpath / posixpath), faulted as such; os.access never fails and is not faulted; empty native answers: one per-process list / dict / str answer (or a random subset of them) comes back empty, other degenerate shapes (None, truncated tuples) are not generated; subprocess-based helpers (pfiles, procfiles, swap -l, lsdev, entstat) are outside the model",
 ]
 MANIFEST = {
-    "level_text": "Machine-checked Lean 4 proofs over a model of the five non-Linux platform modules and the front end's platform-conditional post-processing: C20_error_contract_partial (for every platform module, every errno in {ESRCH, ENOENT, EPERM, EACCES, EIO, EINVAL}, every winerror, every pid and every REAL pid state — gone / zombie / alive, not what the module's probe can tell — outside the region Spec.knownZombieDeviation, the decorator built from the translator's except-clause table produces exactly the cell of the contract table; full strength on BSD / macOS / Windows: C20_error_contract_bsd_osx_windows; the full statement C20_error_contract_Full is REFUTED for Solaris / AIX by C20_error_contract_counterexample and the code's behaviour in the region is characterised exactly by C20_error_contract_deviation: ZombieProcess where the cell is NoSuchProcess — finding C20-sunos-aix-exists-means-zombie), corollary C20_error_contract_methods, C20_all_methods_wrapped (every undecorated method justified one by one, helpers only reachable from decorated methods), C20_inner_handlers_transcribed, C20_method_faults_within_spec_partial (every native call of every method × error × pid state: outcome within the specification's allowed set or, on Solaris / AIX only, the one known zombie deviation in its region; by decide over the generated traces; no call site excluded, for the code as it is — obligations cfg_win_ppid_wrapped and cfg_win_maps_loop_guarded; strict full strength on the BSDs, macOS and Windows: C20_method_faults_within_spec_bsd_osx_windows; the strict statement C20_method_faults_within_spec_Full is refuted by C20_method_faults_not_full; counterexamples kept for the unrepaired Windows configuration), C20_zombie_codes_documented / C20_zombie_probe_sees_documented_codes / C20_error_contract_status_codes (the contract in terms of the native status code of the probe record: is_zombie's comparison, a translator fact, says zombie for exactly the codes the platform documents — OpenBSD SDEAD and SZOMB), C20_two_faults_within_spec (same tolerance; two-fault sequences: for every generated row of first faults after which a method goes on — alternative path after an inner handler, or re-run by the partial-copy retry — every later native call × second error × pid state is within the specification; any first error), C20_two_faults_first_ends, C20_empty_answer_faults_within_spec_partial (seeded round 5 — the native ANSWER is a dimension: for every method × native call whose list / dict / str answer about the process can come back EMPTY, rows of the translator fact tracesEmpty, every native call the method makes on THAT run — the Solaris / AIX 'is the process still there?' re-checks behind `if not ret:` are reached this way only — × error × pid state is within the specification, same tolerance; strict on BSD / macOS / Windows: C20_empty_answer_faults_bsd_osx_windows; C20_empty_answer_faults_not_full), C20_path_probes_transcribed + C20_path_probe_faults_within_spec (os.path.exists / isfile / islink are a stat() whose failure the caller never sees: the (identity, method, question) triples of ALL generated call sequences are exactly the transcribed ones, and a failing stat there leaves the method inside the specification — an OS query moved behind such a yes/no question is noticed), C20_slot_maps_match_native, C20_slots_match, C20_all_record_reads_named (every read of a native one-shot record on any path is a named-slot read), C20_fallback_slots_match (the slot reads on except-handler paths are exactly the documented fall-backs), C20_ntuple_types, C20_win_pmem_layout (decide over generated tables), C20_api_names (documented ⊆ exposed per platform), C20_mac_padding, C20_broadcast_takes_effect and C20_broadcast6_takes_effect (IPv4 on 32 bits and IPv6 on 128 bits against bit-level specifications; post-processing takes effect; counterexample for the pre-fix front end), C20_front_branches_classified (every platform-conditional branch inside a function or class of the front end is on a classified list) with C20_front_ppid / _name / _username / _pid_exists / _affinity_all_cpus / _disk_io_kwargs for the ones that transform a value. Tie: translator (except clauses, decorators, slot maps, feeds, record reads, fall-back reads, single- and two-fault traces, front-end branches, C comments, docs) + a differential run of the REAL platform modules and front end under platform emulation over a scripted native layer (full single-fault sweep, os.path questions included as fault points; two-fault sequences: sampled at the quick tier, the whole domain at the thorough tier; empty-answer family: every emptied run with a different call sequence × every call × every error × state exhaustively, random subsets of empty answers with a random fault). Round 2/3: C20_native_slot_order (at full strength for the code as it is: slot i of every slot map = i-th argument of the parsed Py_BuildValue call of the C function and that argument is the struct member the slot is NAMED FOR — reviewed table of INTENDED members; the positional native tuples too; stub record lengths; every slot, since /repo c9c8f6b repaired the BSD saved_gid slot that was fed from the saved UID member — defect C20-bsd-saved-gid, fixed; C20_saved_gid_is_not_saved_uid names the slot, C20_native_slot_order_partial is kept for a tree without the repair); C20_api_fields (every namedtuple field docs/index.rst documents for a platform — bullets with platform notes, per-platform table columns in order — is a field of that platform's namedtuple; six Solaris/AIX gaps listed and kept exact by C20_api_fields_gaps_characterisation); C20_front_ident_partial (+ _bsd_osx_windows full, _counterexample_sunos) / _ident_fast_only / cfg_ident_fast_only (Process(pid): Windows identity uses create_time(fast_only=True), AccessDenied → (pid, None)), C20_front_eq (Open/NetBSD zombie equality, all identities), C20_front_send_signal_posix (OpenBSD zombie branch), C20_front_send_signal_windows (+ _contract): all driven on the REAL front end over the REAL platform module under each emulated identity.",
+    "level_text": "Machine-checked Lean 4 proofs over a model of the five non-Linux platform modules and the front end's platform-conditional post-processing: C20_error_contract_partial (for every platform module, every errno in {ESRCH, ENOENT, EPERM, EACCES, EIO, EINVAL}, every winerror, every pid and every REAL pid state — gone / zombie / alive, not what the module's probe can tell — outside the region Spec.knownZombieDeviation, the decorator built from the translator's except-clause table produces exactly the cell of the contract table; full strength on BSD / macOS / Windows: C20_error_contract_bsd_osx_windows; the full statement C20_error_contract_Full is REFUTED for Solaris / AIX by C20_error_contract_counterexample and the code's behaviour in the region is characterised exactly by C20_error_contract_deviation: ZombieProcess where the cell is NoSuchProcess — finding C20-sunos-aix-exists-means-zombie), corollary C20_error_contract_methods, C20_all_methods_wrapped (every undecorated method justified one by one, helpers only reachable from decorated methods), C20_inner_handlers_transcribed, C20_method_faults_within_spec_partial (every native call of every method × error × pid state: outcome within the specification's allowed set or, on Solaris / AIX only, the one known zombie deviation in its region; by decide over the generated traces; no call site excluded, for the code as it is — obligations cfg_win_ppid_wrapped and cfg_win_maps_loop_guarded; strict full strength on the BSDs, macOS and Windows: C20_method_faults_within_spec_bsd_osx_windows; the strict statement C20_method_faults_within_spec_Full is refuted by C20_method_faults_not_full; counterexamples kept for the unrepaired Windows configuration), C20_zombie_codes_documented / C20_zombie_probe_sees_documented_codes / C20_error_contract_status_codes (the contract in terms of the native status code of the probe record: is_zombie's comparison, a translator fact, says zombie for exactly the codes the platform documents — OpenBSD SDEAD and SZOMB), C20_two_faults_within_spec (same tolerance; two-fault sequences: for every generated row of first faults after which a method goes on — alternative path after an inner handler, or re-run by the partial-copy retry — every later native call × second error × pid state is within the specification; any first error), C20_two_faults_first_ends, C20_empty_answer_faults_within_spec_partial (seeded round 5 — the native ANSWER is a dimension: for every method × native call whose list / dict / str answer about the process can come back EMPTY, rows of the translator fact tracesEmpty, every native call the method makes on THAT run — the Solaris / AIX 'is the process still there?' re-checks behind `if not ret:` are reached this way only — × error × pid state is within the specification, same tolerance; strict on BSD / macOS / Windows: C20_empty_answer_faults_bsd_osx_windows; C20_empty_answer_faults_not_full), C20_path_probes_transcribed + C20_path_probe_faults_within_spec (os.path.exists / isfile / islink are a stat() whose failure the caller never sees: the (identity, method, question) triples of ALL generated call sequences are exactly the transcribed ones, and a failing stat there leaves the method inside the specification — an OS query moved behind such a yes/no question is noticed), C20_slot_maps_match_native, C20_slots_match, C20_all_record_reads_named (every read of a native one-shot record on any path is a named-slot read), C20_fallback_slots_match (the slot reads on except-handler paths are exactly the documented fall-backs), C20_ntuple_types, C20_win_pmem_layout (decide over generated tables), C20_api_names (documented ⊆ exposed per platform), C20_mac_padding, C20_net_if_addrs_records_independent / C20_net_if_addrs_record_wise / C20_broadcast_rejected_netmask_leaves_record (one net_if_addrs() call on a native answer of ANY length, NICs, families and netmasks incl. those the ipaddress module rejects: record-wise, nothing carried from one record to the next; obligation cfg_broadcast_fresh from a per-iteration data-flow fact; what-if C20_broadcast_carry_counterexample), C20_broadcast_takes_effect and C20_broadcast6_takes_effect (IPv4 on 32 bits and IPv6 on 128 bits against bit-level specifications; post-processing takes effect; counterexample for the pre-fix front end), C20_front_branches_classified (every platform-conditional branch inside a function or class of the front end is on a classified list) with C20_front_ppid / _name / _username / _pid_exists / _affinity_all_cpus / _disk_io_kwargs for the ones that transform a value. Tie: translator (except clauses, decorators, slot maps, feeds, record reads, fall-back reads, single- and two-fault traces, front-end branches, C comments, docs) + a differential run of the REAL platform modules and front end under platform emulation over a scripted native layer (full single-fault sweep, os.path questions included as fault points; two-fault sequences: sampled at the quick tier, the whole domain at the thorough tier; empty-answer family: every emptied run with a different call sequence × every call × every error × state exhaustively, random subsets of empty answers with a random fault). Round 2/3: C20_native_slot_order (at full strength for the code as it is: slot i of every slot map = i-th argument of the parsed Py_BuildValue call of the C function and that argument is the struct member the slot is NAMED FOR — reviewed table of INTENDED members; the positional native tuples too; stub record lengths; every slot, since /repo c9c8f6b repaired the BSD saved_gid slot that was fed from the saved UID member — defect C20-bsd-saved-gid, fixed; C20_saved_gid_is_not_saved_uid names the slot, C20_native_slot_order_partial is kept for a tree without the repair); C20_api_fields (every namedtuple field docs/index.rst documents for a platform — bullets with platform notes, per-platform table columns in order — is a field of that platform's namedtuple; six Solaris/AIX gaps listed and kept exact by C20_api_fields_gaps_characterisation); C20_front_ident_partial (+ _bsd_osx_windows full, _counterexample_sunos) / _ident_fast_only / cfg_ident_fast_only (Process(pid): Windows identity uses create_time(fast_only=True), AccessDenied → (pid, None)), C20_front_eq (Open/NetBSD zombie equality, all identities), C20_front_send_signal_posix (OpenBSD zombie branch), C20_front_send_signal_windows (+ _contract): all driven on the REAL front end over the REAL platform module under each emulated identity.",
     "level_note": "Trusted: Lean kernel + {propext, Classical.choice, Quot.sound}; the translator; the emulation layer (stub natives, scripted os); CPython's errno→exception map. Not executed: the native C layers of the other OSes. Partial: one open finding — C20-sunos-aix-exists-means-zombie (Solaris / AIX report ZombieProcess for a process that merely still exists; theorems _partial with the region excluded and characterised); two-fault sequences start from first faults after which the method still returns (the decorator's os.kill probe is faulted with EPERM only); the Windows partial-copy retry loop is a closed form, not a recursive loop; Spec.recoverable / Model.inner are keyed by the same (method, call) table (characterisation of the handlers, tied by the differential run); every public method's returned value is compared with an expected value (per-item tuples by hand from the native item layout; scalars a reviewed literal); every platform-conditional front-end branch that transforms a value is now modelled (round 2: _get_ident, __eq__, _send_signal, send_signal); documented FIELDS: six Solaris/AIX gaps (nice, active, inactive marked *(UNIX)* in the docs) are characterised, not findings (the statement promises function and constant names); the native C code is parsed, not compiled.",
     "technique": "Lean 4 case analysis + decide over translator-generated tables (Python AST, parsed C Py_BuildValue calls, docs); platform emulation with scripted native layer for the differential correspondence",
     "design_ref": "DESIGN.md §5 C20",
@@ -172,6 +173,8 @@ def facts(snap, F):
               "retry_error_partial_copy: times")
     F.try_add("winBroadcastAssigned", "Bool", lambda: lean_bool(T.broadcast_assigned(tree("__init__.py"))),
               "net_if_addrs(): is the result of nt._replace(broadcast=...) assigned back to nt?")
+    F.try_add("winBroadcastFresh", "Bool", lambda: lean_bool(T.broadcast_fresh(tree("__init__.py"))),
+              "net_if_addrs(): on every path reaching _replace(broadcast=V), was V bound in the same iteration of the record loop?")
 
     def status_tab(ident):
         return T.status_tables(emus[ident], tree(T.FAMILY_FILE[T.FAMILY[ident]]))
@@ -1029,6 +1032,167 @@ def judge_netif(emu, c, impl, m, res):
     return False
 
 
+# ---- net_if_addrs: one call on a native answer of MANY records (records on which the helper raises included)
+
+# texts ipaddress rejects as a netmask of the family; a "plen" beyond the family's width selects one of them
+BAD_MASK4 = ["255.0.255.0", "255.255.255.256", "255.255.0.255", "ffff::", "33", "255.255"]
+BAD_MASK6 = ["ffff:ffff:ffff:ffff::", "129", "255.255.255.0", "-1", "64/64", "zz"]
+
+# record kinds the family is spanned over: (fam, plen) with plen None = no netmask, > width = rejected netmask
+NETIFS_KINDS = [("link", None), ("inet", 24), ("inet", 8), ("inet", None), ("inet", 33), ("inet", 35),
+                ("inet6", 64), ("inet6", None), ("inet6", 129), ("inet6", 130)]
+
+
+def _mask_text(fam, plen):
+    if plen is None:
+        return None
+    if fam == "inet":
+        if plen <= 32:
+            return dotted((2 ** 32 - 1) ^ (2 ** (32 - plen) - 1))
+        return BAD_MASK4[(plen - 33) % len(BAD_MASK4)]
+    if plen <= 128:
+        return str(plen)
+    return BAD_MASK6[(plen - 129) % len(BAD_MASK6)]
+
+
+def _netifs_rec(fam, plen, nic, k, sep, rng=None, native_b=False):
+    if fam == "link":
+        groups = 1 + (k % 6)
+        return {"nic": nic, "fam": "link", "mac": sep.join("%02x" % (16 + k + i) for i in range(groups)), "ip": 0,
+                "plen": None, "bcast": None}
+    if fam == "inet":
+        ip = rng.randrange(1, 2 ** 32) if rng else (0x0A000001 + 0x01010100 * k) % 2 ** 32
+        b = (ip | 0xFF) if native_b else None
+    else:
+        ip = rng.randrange(1, 2 ** 128) if rng else 0xfe800000000000000000000000000001 + (k << 64)
+        b = (ip | 0xFFFF) if native_b else None
+    return {"nic": nic, "fam": fam, "mac": "", "ip": ip, "plen": plen, "bcast": b}
+
+
+def _check_bad_masks():
+    """the family's premise, checked on the host's ipaddress module: every text of BAD_MASK4/6 IS rejected"""
+    import ipaddress
+    for cls, a, texts in ((ipaddress.IPv4Network, "10.1.2.3", BAD_MASK4), (ipaddress.IPv6Network, "fe80::1", BAD_MASK6)):
+        for t in texts:
+            try:
+                cls("%s/%s" % (a, t), strict=False)
+            except ValueError:
+                continue
+            raise InfraError("ipaddress accepts %r as a netmask: not a rejected-netmask text" % t)
+
+
+def netifs_cases(emu, rng, n_random, exhaustive):
+    _check_bad_masks()
+    sep = "-" if emu.windows else ":"
+    out = []
+    # structured: every ordered pair of record kinds, on one NIC and on two
+    for i, (f1, p1) in enumerate(NETIFS_KINDS):
+        for j, (f2, p2) in enumerate(NETIFS_KINDS):
+            for nics in ((0, 0), (0, 1)):
+                out.append(("pair", [_netifs_rec(f1, p1, nics[0], 1, sep), _netifs_rec(f2, p2, nics[1], 2, sep)]))
+    # small exhaustive: every triple over a reduced alphabet (one representative per helper outcome and family)
+    small = [("link", None), ("inet", 24), ("inet", None), ("inet", 34), ("inet6", 64), ("inet6", 129)]
+    if exhaustive:
+        for a in range(len(small)):
+            for b in range(len(small)):
+                for c in range(len(small)):
+                    recs = [_netifs_rec(small[x][0], small[x][1], nic, pos + 1, sep)
+                            for pos, (x, nic) in enumerate(((a, 0), (b, 1), (c, 0)))]
+                    out.append(("triple", recs))
+    # random: 2..7 records, 1..3 NICs, random addresses, every bad-mask text, native broadcast off Windows
+    for _ in range(n_random):
+        n = rng.randrange(2, 8)
+        recs = []
+        for k in range(n):
+            fam = rng.choice(["link", "inet", "inet", "inet6", "inet6"])
+            if fam == "link":
+                plen = None
+            else:
+                width = 32 if fam == "inet" else 128
+                plen = rng.choice([None, rng.randrange(0, width + 1), rng.randrange(0, width + 1),
+                                   width + 1 + rng.randrange(0, 6)])
+            recs.append(_netifs_rec(fam, plen, rng.randrange(0, 3), k, sep, rng=rng,
+                                    native_b=(not emu.windows and rng.random() < 0.5)))
+        out.append(("random", recs))
+    return [{"kind": "netifs", "ident": emu.ident, "part": part, "recs": recs} for part, recs in out]
+
+
+def _netifs_keys(emu):
+    return {"key_link": 0 if emu.windows else int(emu.consts["AF_LINK"]) + 1,
+            "key_inet": int(socket.AF_INET) + 1, "key_inet6": int(socket.AF_INET6) + 1}
+
+
+def netifs_line(emu, c):
+    # family numbers as the sort keys of this identity (shifted by one: Windows flags a MAC record with -1)
+    return dict({"op": "netifs", "windows": emu.windows, "recs": c["recs"]}, **_netifs_keys(emu))
+
+
+def _netifs_addr(r):
+    return r["mac"] if r["fam"] == "link" else (dotted(r["ip"]) if r["fam"] == "inet" else text6(r["ip"]))
+
+
+def _netifs_b(r):
+    if r["bcast"] is None:
+        return None
+    return dotted(r["bcast"]) if r["fam"] == "inet" else text6(r["bcast"])
+
+
+def run_netifs(emu, c):
+    raw = []
+    for r in c["recs"]:
+        if r["fam"] == "link":
+            fam = -1 if emu.windows else emu.consts["AF_LINK"]
+        else:
+            fam = int(socket.AF_INET) if r["fam"] == "inet" else int(socket.AF_INET6)
+        raw.append(("nic%d" % r["nic"], fam, _netifs_addr(r), _mask_text(r["fam"], r["plen"]), _netifs_b(r), None))
+    emu.netif_raw = raw
+    obs, tr = emu.call(emu.pkg.net_if_addrs)
+    if obs["kind"] != "value":
+        return {"k": "exc", "obs": obs}
+    try:
+        got = {}
+        for name, ents in obs["value"]["dict"]:
+            rows = []
+            for ent in ents:
+                f = {k: v for k, v in ent["fields"]}
+                rows.append([f["address"], f["netmask"], f["broadcast"], f["ptp"]])
+            got[name] = rows
+        return {"k": "ok", "nics": got}
+    except Exception as e:  # noqa: BLE001
+        return {"k": "shape", "obs": obs, "err": repr(e)}
+
+
+def judge_netifs(emu, c, impl, m, res):
+    masks = {}
+    for r in c["recs"]:
+        masks.setdefault((r["nic"], r["fam"], r["ip"], r["mac"] if r["fam"] != "link" else None), _mask_text(r["fam"], r["plen"]))
+
+    def rows(side):
+        w = {}
+        for o in m[side]:
+            src = [r for r in c["recs"] if r["nic"] == o["nic"] and r["fam"] == o["fam"] and r["ip"] == o["ip"]
+                   and (r["fam"] != "link" or o["mac"].startswith(r["mac"]))]
+            mask = _mask_text(src[0]["fam"], src[0]["plen"]) if src else None
+            w.setdefault("nic%d" % o["nic"], []).append(
+                [_netifs_addr(o), mask, _netifs_b(o), None])
+        return w
+    wm, ws = rows("model"), rows("spec")
+    if impl.get("k") != "ok":
+        res.disagree("spec", c, impl, wm, ws, note="%s net_if_addrs() on %d records does not return" % (emu.ident, len(c["recs"])))
+        return True
+    got = impl["nics"]
+    norm = lambda d: {k: sorted(v, key=repr) for k, v in d.items()}  # noqa: E731
+    if norm(got) != norm(ws):
+        res.disagree("spec", c, impl, wm, ws,
+                     note="%s net_if_addrs(): a record of a %d-record native answer is not what the record on its own calls for"
+                     % (emu.ident, len(c["recs"])))
+        return True
+    if got != wm:
+        res.disagree("model", c, impl, wm, ws, note="%s net_if_addrs(): order / content differs from the model" % emu.ident)
+        return True
+    return False
+
+
 # ---- api
 
 
@@ -1799,6 +1963,26 @@ def correspond(ctx, res):
                      nontrivial=(c["fam"] == "link" or (emu.windows and c["plen"] is not None)),
                      sample={"case": c, "impl": impl} if (ident == "windows" and c["plen"] == 24 and c["ip"] == 0xC0A8010A) else None)
             judge_netif(emu, c, impl, m, res)
+    # ---------------- net_if_addrs, whole native answers (many records, helper raising on some)
+    for ident in E.IDENTS:
+        emu = emus[ident]
+        cases = netifs_cases(emu, ctx.rng, ctx.n(30, 600), exhaustive=(emu.windows or ident == "freebsd"))
+        outs = ctx.driver().batch([netifs_line(emu, c) for c in cases])
+        drv_lines += len(cases)
+        for c, m in zip(cases, outs):
+            if "bad" in m:
+                raise InfraError("driver rejected netifs query: %s" % m)
+            impl = run_netifs(emu, c)
+            res.count("family:net_if_addrs-multi")
+            res.count("netifs:" + c["part"])
+            rejected = sum(1 for r in c["recs"] if r["plen"] is not None and r["plen"] > (32 if r["fam"] == "inet" else 128))
+            if rejected:
+                res.count("netifs:helper-raises")
+            res.case(("netifs", ident, c["part"], json.dumps(c["recs"], sort_keys=True)),
+                     nontrivial=(emu.windows and rejected > 0) or any(r["fam"] == "link" for r in c["recs"]),
+                     sample={"case": c, "impl": impl} if (ident == "windows" and c["part"] == "pair" and rejected == 1
+                                                         and c["recs"][0]["plen"] == 24) else None)
+            judge_netifs(emu, c, impl, m, res)
     # ---------------- the other platform-conditional branches of the front end
     for ident in E.IDENTS:
         emu = emus[ident]
@@ -1887,6 +2071,9 @@ def _rerun(ctx, inp, res):
     if kind == "netif":
         m = ctx.driver().batch([netif_line(emu, inp)])[0]
         return judge_netif(emu, inp, run_netif(emu, inp), m, res) and res.disagreements[-1]["kind"] == "spec"
+    if kind == "netifs":
+        m = ctx.driver().batch([netifs_line(emu, inp)])[0]
+        return judge_netifs(emu, inp, run_netifs(emu, inp), m, res) and res.disagreements[-1]["kind"] == "spec"
     if kind == "api":
         m = ctx.driver().batch([{"op": "api", "plat": inp["ident"]}])[0]
         live = T.exposed_api(emu, {"x": m["documented"]})
